@@ -23,7 +23,7 @@ Print Assumptions C17_transparent.
 
 Theorem C17_events_are_the_specification :
   forall (P : Type) ev sev (src : @source json) (vp : list (vertex P)) (tr : @tracecfg json),
-    (forall p m, wf m ->
+    (forall p m, In (VPred p) vp -> wf m ->
        (fst (ev p m tr) = fst (sev p (abs m)) /\
         map abs_ev (snd (ev p m tr)) = proj (tracing tr) (snd (sev p (abs m)))) \/
        (exists e, fst (ev p m tr) = Exn e /\ budget_exn e = true)) ->
